@@ -22,6 +22,16 @@ class HarnessError(Exception):
     """The harness (not the code under test) is broken: exit 2, never a VIOLATION."""
 
 
+class Refused(Exception):
+    """The library refused to BUILD an input the harness only ever generates inside the documented
+    domain (a total Kripke structure from list/set/tuple containers): the property cannot hold for that
+    input, so this becomes a violation of the running check, not a harness error."""
+
+    def __init__(self, failure):
+        Exception.__init__(self, repr(failure))
+        self.failure = failure
+
+
 def bootstrap():
     """Put the tree under test first on sys.path and check where it is imported from."""
     deps = os.path.join(VERIF, '.deps')
@@ -288,7 +298,11 @@ def _worker(args):
     try:
         bootstrap()
         st = Stats()
-        fn(st, shard, nshards, payload)
+        try:
+            fn(st, shard, nshards, payload)
+        except Refused as r:
+            if st.failure is None:
+                st.failure = r.failure
         return st
     except BaseException:
         return ('error', traceback.format_exc())
@@ -383,6 +397,8 @@ def hyp_run(seed_value, strategy, body, max_examples, shrink=True):
         return last.get('f', e.failure)
     except (FailedHealthCheck, Unsatisfiable) as e:
         raise HarnessError('generator problem: %r' % (e,))
+    except Refused as r:
+        return r.failure
     except Flaky as e:
         if 'f' in last:
             return last['f']
